@@ -5,6 +5,8 @@
 
 mod batch;
 mod checks;
+mod corpus;
+mod lexer;
 mod exprm;
 mod icase;
 mod ihex;
